@@ -48,6 +48,8 @@ def read_postfix(s, arrow, sub_arrow):
     def children(tokens):
         out = []
         for t in tokens:
+            if t == "":
+                continue  # a decay without daughters leaves an empty daughters string
             if t.startswith("(" + sub_arrow + " ") and t.endswith(")"):
                 if not out or not isinstance(out[-1], str):
                     raise C.DescriptorError(f"sub-decay without a mother in {s!r}")
